@@ -239,7 +239,7 @@ func runC16Session(id string, c *c16Case) {
 			return
 		}
 		simRes, simErr := c16CLIOps(d2, s.CLI)
-		_ = d2.Close()
+		c16CloseGeneric(d2)
 		cs.Obs = fmt.Sprintf("results=%d/%d err=%s/%s", len(realRes), len(simRes), errClass(realErr), errClass(simErr))
 		if errClass(realErr) != errClass(simErr) {
 			fail("session-cli-error", "CLI session over %s ended with %v, over the ideal pipe with %v", c.Kind, realErr, simErr)
